@@ -131,6 +131,7 @@ class World:
         self.view_now = self.tx_view()
         self.ncommit = 0
         self.gets = 0
+        self.view_error = None
 
     def close(self):
         try:
@@ -165,6 +166,9 @@ class World:
                 for row in self.t.queryAll('SELECT id, n, m FROM %s' % cls.sqlmeta.table):
                     out[c * 1000 + row[0]] = tuple(row[1:])
         except AssertionError:
+            return None
+        except Exception as e:       # not a refusal: remembered for the oracle
+            self.view_error = type(e).__name__
             return None
         return out
 
@@ -393,6 +397,10 @@ class World:
         if kind == 'destroy' and sd == 'T':
             self.txdel.add(self.keyof['T'][op[2]])
         # --- a finished transaction refuses use; an active one answers
+        if self.view_error is not None:
+            self.fail(None, 'a query through the transaction fails with %s instead of being answered or refused (AssertionError)'
+                      % self.view_error, 'refusal-kind')
+            self.view_error = None
         if (view is None) != self.obsolete:
             self.fail(None, 'transaction is %s but its queryAll %s' % (
                 'finished' if self.obsolete else 'active', 'answers' if view is not None else 'refuses'), 'obsolete-flag')
@@ -676,6 +684,9 @@ def shrink(dc, ops, detail):
     return ops
 
 
+_unknown = [0]
+
+
 def report(ctx, name, dc, ops, lines, impl, fails, expect=None):
     desc = {'dc': dc, 'ops': [list(o) for o in ops]}
     outs = ctx.model(lines)
@@ -694,7 +705,9 @@ def report(ctx, name, dc, ops, lines, impl, fails, expect=None):
                 ctx.oracle_fail(key, what, desc)
         elif not unknown_done:
             unknown_done = True
-            small = shrink(dc, ops, detail)
+            _unknown[0] += 1
+            # only the first few unlisted failures are minimised (each costs up to 150 re-executions)
+            small = shrink(dc, ops, detail) if _unknown[0] <= 3 else ops
             k2 = 'C07:%s:%s' % (detail, '-'.join(o[0] + (o[1] if o[0] not in TX_KINDS else '') for o in small))
             ctx.oracle_fail(k2, what, {'dc': dc, 'ops': [list(o) for o in small]})
     if expect is not None and expect not in known:
@@ -705,7 +718,14 @@ def report(ctx, name, dc, ops, lines, impl, fails, expect=None):
 def run(ctx):
     env()
     rng = ctx.rng
-    for name, dc, ops, expect in CORPUS:
+    _unknown[0] = 0
+    import glob
+    import json
+    corpus = list(CORPUS)
+    for path in sorted(glob.glob(os.path.join(os.path.dirname(os.path.dirname(os.path.abspath(__file__))), 'corpus', 'C07', '*.json'))):
+        for hst in json.load(open(path)).get('histories', []):
+            corpus.append((hst['name'], hst['dc'], [tuple(o) for o in hst['ops']], hst.get('expect')))
+    for name, dc, ops, expect in corpus:
         if 'creates in the transaction' in name and ctx.deep:
             continue
         lines, impl, fails = run_ops(dc, ops)
@@ -713,6 +733,9 @@ def run(ctx):
         report(ctx, name, dc, ops, lines, impl, fails, expect)
     n = ctx.budget(1500, 20000)
     for h in range(n):
+        if _unknown[0] >= 12:
+            ctx.note('stopped after 12 histories with unlisted oracle failures')
+            break
         dc = rng.random() < 0.8
         length = rng.randint(4, 30 if ctx.tier == 'quick' else 60)
         ops, lines, impl, fails = gen_history(rng, length, dc)
